@@ -11,8 +11,9 @@ complete imported repository (parents by mark, committer, authors, timestamp, ti
 every revision, tags, branch tip, revno) -- or the exception class that aborts the import.
 
 The oracle is the property itself: the imported repository must be isomorphic to the exported history.
-It fails on the unchanged code for twelve classes of inputs (see notes/C44.md); each is a known-finding
-candidate recognised by a predicate on the INPUT (finding_matches), never by the failure alone.
+After the repair round (six fix commits, notes/C44.md) it still fails on the current code for eleven classes
+of inputs; each is a known finding recognised by a predicate on the INPUT (finding_matches), never by the
+failure alone.  The witnesses of the repaired findings stay in corpus() and must pass.
 """
 import email.utils
 import json
@@ -47,15 +48,19 @@ META = {
                    "formats) are compared with the Coq model's prediction, and the round-trip property is "
                    "evaluated on the implementation.  Proved about the model, for all inputs: the exporter emits "
                    "the new content of every added/changed file and symlink at its new path; import∘export "
-                   "preserves the number of revisions and the parent structure when the history has one root; "
-                   "timestamps/timezones/idents/tags round-trip exactly under executable guards; valid tag refs "
-                   "are not rewritten.  The full statement is FALSE of the faithful model and of the code: "
-                   "C44_*_refuted theorems with witnesses replayed on the real code on every run."),
+                   "preserves the number of revisions and the parent structure (roots included); every tag reset "
+                   "stays below refs/tags/; timestamps/timezones/idents/tags round-trip exactly under executable "
+                   "guards.  The full statement is still FALSE of the faithful model and of the code (rename order, "
+                   "directory replaced by a file, empty directories, format limits): C44_*_refuted theorems with "
+                   "witnesses replayed on the real code on every run; the witnesses repaired in the repair round "
+                   "are now positive theorems (C44_filecmds_sound_repaired_witnesses, C44_two_roots_preserved, "
+                   "C44_rewritten_tag_stays_tag, C44_ident_empty_name_roundtrip)."),
     "level_note": ("Trusted: Coq kernel + vm_compute; the hand models' correspondence (sampling); the `fastimport` "
                    "package (stream syntax), bzrformats inventories/apply_delta, vcsgraph merge_sort and "
-                   "email.utils.parseaddr as environment.  The order of the M commands inside a commit (CHK hash "
-                   "order, text storage order) is taken from the observed stream.  No general theorem that the "
-                   "file commands reproduce the tree under the guard: that half is validated by the runs only."),
+                   "email.utils.parseaddr as environment.  The order of the M commands, and of the D commands for "
+                   "kind changes, inside a commit (CHK hash order, text storage order) is taken from the observed "
+                   "stream.  Rich streams of non-linear histories are compared on the export side only.  No general "
+                   "theorem that the file commands reproduce the tree under the guard: validated by the runs only."),
     "design_ref": "DESIGN.md §5 C44",
     "trusted_base": ["hand models coq/Model/FastIO.v, coq/Model/FastHist.v of breezy/plugins/fastimport/"
                      "{exporter,bzr_commit_handler,revision_store,branch_updater}.py and processors/generic_processor.py",
@@ -64,7 +69,10 @@ META = {
     "assumptions": ["the fastimport package's serializer+parser are the identity on names, e-mails, messages, paths "
                     "and inline data, keep whole seconds and whole minutes of UTC offset (compared on every case)",
                     "email.utils.parseaddr(ident) is supplied to the model as an input of the case",
-                    "the order of M commands within a commit is supplied to the model from the observed stream",
+                    "the order of M commands (and of the leading D commands of kind changes) within a commit is supplied "
+                    "to the model from the observed stream",
+                    "rich streams: entry revisions (ie.revision) follow the rule 'unchanged entry keeps its revision' "
+                    "along the left-hand parent; only linear histories are imported in rich mode",
                     "Inventory.apply_delta / CHKInventory.create_by_apply_delta reject exactly the deltas that "
                     "FastIO.apply_delta rejects (duplicate ids, wrong old paths, duplicate names, missing or "
                     "non-directory parents, wrong new paths) -- compared on every case",
@@ -167,25 +175,27 @@ def corpus():
     out.append(_case(n, s, [_rev([], [d(1, 0, 3), d(2, 1, 4), f(3, 2, 0), f(4, 0, 1)]), _rev([0], [f(4, 0, 1)])]))
     out.append(_case(n, s, [_rev([], [d(1, 0, 3), d(2, 1, 4), f(3, 2, 0), f(4, 0, 1)]),
                             _rev([0], [f(3, 0, 0), f(4, 0, 1)])]))
+    # rich streams (reported after 8f7ca2e made them importable):
+    # (1) rename directory d -> e, then in a later commit rename e/a: NoSuchFile (lookup by path in ie.revision)
+    out.append(_case(n, s, [_rev([], [d(1, 0, 3), f(2, 1, 0)]), _rev([0], [d(1, 0, 4), f(2, 1, 0)]),
+                            _rev([1], [d(1, 0, 4), f(2, 1, 1)])], plain=0))
+    # (2) rename directory d -> e and chmod a child in the same commit: InconsistentDelta
+    out.append(_case(n, s, [_rev([], [d(1, 0, 3), f(2, 1, 0)]), _rev([0], [d(1, 0, 4), f(2, 1, 0, 2, 1)])], plain=0))
+    # (3) mv d/a c; rm d  in one commit: the moved file is lost
+    out.append(_case(n, s, [_rev([], [d(1, 0, 3), f(2, 1, 0), f(3, 0, 1)]), _rev([0], [f(2, 0, 2), f(3, 0, 1)])],
+                     plain=0))
+    # plain: an (empty) directory renamed onto the path of a removed file: the file's D is swallowed, the file stays
+    out.append(_case(n, s, [_rev([], [d(1, 0, 3), f(2, 0, 0), f(3, 0, 4)]), _rev([0], [d(1, 0, 4), f(2, 0, 0)])]))
     return out
-
-
-def _restrict_rich(case):
-    """Rich streams are importable only for revisions without properties, and the importer's directory
-    renames interact with the commit builder's merge handling and with per-entry revisions in ways the
-    model does not cover (notes/C44.md): such cases are linear and without moved directories."""
-    case["plain"] = 0
-    case["props"] = 0
-    for r in case["revs"]:
-        r["authors"] = []
 
 
 def cases(rng, tier):
     quick = tier == "quick"
     n_mixed = 45 if quick else 600
     n_focus = 2 if quick else 25
-    n_rich = 10 if quick else 150
+    n_rich = 14 if quick else 200
     for _ in range(n_mixed):
+        # rich streams of non-linear histories are compared on the export side only (see _doimport)
         c = G.gen_case(rng, plain=1 if rng.random() < 0.85 else 0)
         c["props"] = 1
         yield c
@@ -195,11 +205,15 @@ def cases(rng, tier):
             c = G.gen_case(rng, n=rng.choice([2, 3]), focus=focus, plain=1, nasty=0.0)
             c["props"] = 1
             yield c
-    made = 0
-    while made < n_rich:
-        c = G.gen_case(rng, nasty=0.1, linear=True, nodirmove=True)
-        _restrict_rich(c)
-        made += 1
+    # rich streams, linear histories (imported for real): directory renames followed by renames below them,
+    # modified children of renamed directories, children moved out of removed directories ...
+    for k in range(n_rich):
+        focus = [None, "dirrename", "move", "moveout", "rename", "kind"][k % 6]
+        c = G.gen_case(rng, n=rng.choice([2, 3, 4, 5]), focus=focus, plain=0, nasty=0.1, linear=True)
+        c["props"] = int(rng.random() < 0.7)
+        if not c["props"]:
+            for r in c["revs"]:
+                r["authors"] = []
         yield c
     if not quick:
         for n in (12, 22, 30):
@@ -212,6 +226,16 @@ def cases(rng, tier):
 
 
 # ---------------------------------------------------------------------------- implementation
+
+def _linear(case):
+    return all(r["parents"] == ([i - 1] if i else []) for i, r in enumerate(case["revs"]))
+
+
+def _doimport(case):
+    """Rich streams of non-linear histories are only exported: their import additionally depends on the
+    commit builder's merge handling of per-entry revisions, which the model does not cover (notes/C44.md)."""
+    return bool(case["plain"]) or _linear(case)
+
 
 def impl(case):
     d = _workdir()
@@ -231,7 +255,10 @@ def impl(case):
             elif c[0] == "reset" and not (c[1] == b"refs/heads/master" and c[2] is None):
                 tagcmds.append([c[1], int(c[2][1:])])
             prev = c
-        _state["mp"][_key(case)] = ([int(r[1:]) for r in order], [[x[1] for x in xc[4]] for xc in xcommits])
+        _state["mp"][_key(case)] = ([int(r[1:]) for r in order], [[x[1] for x in xc[4]] for xc in xcommits],
+                                    [[x[1] for x in xc[3] if str(x[0]) == "D"] for xc in xcommits])
+        if not _doimport(case):
+            return [[int(r[1:]) for r in order], xcommits, tagcmds, Tag("skipped")]
         try:
             proc = R.do_import(d + "/dst", stream, case)
             revs, tags, tip, revno, nrev = R.read_dst(d + "/dst", proc)
@@ -273,22 +300,24 @@ def model_term(case):
         impl(case)
         mp = _state["mp"][_key(case)]
     # the M order is indexed by export position; the model wants it per revision
-    order, mp = mp
+    order, mp, dp = mp
     by_rev = {r: mp[k] for k, r in enumerate(order) if k < len(mp)}
+    d_by_rev = {r: dp[k] for k, r in enumerate(order) if k < len(dp)}
     revs = []
     for i, r in enumerate(case["revs"]):
-        revs.append("(mkS %s %s %s %s %s %s %s %s %s)" % (
+        revs.append("(mkS %s %s %s %s %s %s %s %s %s %s)" % (
             coq_list([coq_nat(p) for p in r["parents"]]),
             coq_list([_coq_entry(case, e) for e in r["inv"]]),
             _b(S[r["committer"]]), _parse(S[r["committer"]]),
             coq_list(["(%s, %s)" % (_b(S[a]), _parse(S[a])) for a in r["authors"]]),
             coq_Z(r["ts4"]), coq_Z(r["tz"]), _b(S[r["msg"]]),
-            coq_list([coq_bytes(p) for p in by_rev.get(i, [])])))
+            coq_list([coq_bytes(p) for p in by_rev.get(i, [])]),
+            coq_list([coq_bytes(p) for p in d_by_rev.get(i, [])])))
     tags = ["(%s, %s)" % (_b(S[t]), "None" if r < 0 else "(Some %s)" % coq_nat(r))
             for t, r in sorted(case["tags"], key=lambda tr: S[tr[0]].encode("utf-8"))]
     return "run_case %s %s %s %s %s %s %s" % (
         coq_bool(case["plain"]), coq_bool(case["rewrite"]), coq_bool(case["no_tags"]),
-        coq_bool(case.get("props", 1)), coq_list(revs), coq_nat(case["tip"]), coq_list(tags))
+        coq_bool(_doimport(case)), coq_list(revs), coq_nat(case["tip"]), coq_list(tags))
 
 
 # ---------------------------------------------------------------------------- oracle (the property)
@@ -317,6 +346,8 @@ def _classes(case, obs):
     """The round-trip property evaluated on the implementation: set of violated clauses."""
     order, xcommits, tagcmds, imported = obs
     S = case["strings"]
+    if isinstance(imported, Tag):          # export-only case: the property cannot be evaluated
+        return set()
     if isinstance(imported, Err):
         return {"import-error:" + str(imported)}
     revs, tags, tip, revno, nrev = imported
@@ -334,9 +365,8 @@ def _classes(case, obs):
         want = R.src_tree(case, r)
         got = [[p, str(m), dat] for p, m, dat in tree]
         if got != want:
-            # only directories without any file or symlink below them are missing -> "emptydir"
-            keep = M.leaf_tree(want)
-            if all(t in want for t in got) and all(t in got for t in keep):
+            # the trees differ only in directories without any file or symlink below them -> "emptydir"
+            if M.leaf_tree(got) == M.leaf_tree(want):
                 bad.add("emptydir")
             else:
                 bad.add("tree")
@@ -381,10 +411,13 @@ def _inv(case, r):
 
 
 def _ident_canonical(ident):
+    """executable guard of C44_ident_guarded (Theory/FastHist.ident_canonical)"""
     if "<" not in ident:
         return True
     n, e = email.utils.parseaddr(ident)
-    return (("%s <%s>" % (n, e)) if e else n) == ident
+    if not e:
+        return False
+    return (("%s <%s>" % (n, e)) if n else "<%s>" % e) == ident
 
 
 def _tag_ref_ok(name):
@@ -393,15 +426,42 @@ def _tag_ref_ok(name):
     return check_ref_format(ref)
 
 
+def _stale_rename(case, anc):
+    """Rich, linear history: an entry is renamed (own name/parent) in a revision while its path in the revision
+    that last changed it differs from its path in the parent (a directory above it was renamed in between):
+    _rename_item looks the old path up in the tree of ie.revision."""
+    erev = {}      # revision -> {id: revision that last changed the entry}
+    for r in anc:
+        rev = case["revs"][r]
+        inv = _inv(case, r)
+        if not rev["parents"]:
+            erev[r] = {e[0]: r for e in inv}
+            continue
+        p = rev["parents"][0]
+        old = _inv(case, p)
+        cur = {}
+        for e in inv:
+            o = M.find_entry(old, e[0])
+            cur[e[0]] = erev[p].get(e[0], r) if (o is not None and o == e) else r
+        erev[r] = cur
+        for o, e in M.moved(old, inv):
+            at = erev[p].get(o[0])
+            if at is not None and M.id2path(_inv(case, at), o[0]) != M.id2path(old, o[0]):
+                return True
+    return False
+
+
+_REASON_CLASS = {"vacated": "rename-order", "late-delete": "rename-order", "below-file": "rename-order",
+                 "into-moved-dir": "rename-order", "dir-to-file": "kind-dir", "dir-kind": "kind-dir",
+                 "kind-to-dir-moved": "kind-dir", "rich-dir-rename-modified-child": "rich-dirmod",
+                 "dir-swallows-delete": "swallow"}
+
+
 def _features(case):
     """Input features that trigger the known defect classes (predicates on the input only)."""
     S = case["strings"]
     anc = sorted(_ancestors(case))
     f = set()
-    if not case["plain"] and case.get("props", 1) and anc:
-        f.add("rich-props")
-    if len([r for r in anc if not case["revs"][r]["parents"]]) > 1:
-        f.add("roots")
     for r in anc:
         rev = case["revs"][r]
         new = _inv(case, r)
@@ -410,7 +470,7 @@ def _features(case):
         if why is not None:
             f.add(_REASON_CLASS[why])
         t = M.tree_of(new)
-        if M.leaf_tree(t) != t:
+        if M.leaf_tree(t) != t or (old and M.leaf_tree(M.tree_of(old)) != M.tree_of(old)):
             f.add("emptydir")
         if rev["ts4"] % 4:
             f.add("subsecond")
@@ -426,38 +486,33 @@ def _features(case):
                 email.utils.parseaddr(S[rev["authors"][0]]) == email.utils.parseaddr(S[rev["committer"]]) \
                 and "<" in S[rev["authors"][0]] and "<" in S[rev["committer"]]:
             f.add("ident-author")
+    if not case["plain"] and _linear(case) and _stale_rename(case, anc):
+        f.add("stale-rename")
     if case["plain"] and not case["no_tags"]:
         for t, r in case["tags"]:
             if r in anc and not _tag_ref_ok(S[t]):
                 f.add("bad-tag")
-                if case["rewrite"]:
-                    from breezy.plugins.fastimport.exporter import sanitize_ref_name_for_git
-                    if not sanitize_ref_name_for_git(b"refs/tags/" + S[t].encode("utf-8")).startswith(b"refs/tags/"):
-                        f.add("tag-escapes")
     return f
 
 
-_REASON_CLASS = {"dirmove": "dir-rename", "vacated": "rename-order", "late-delete": "rename-order",
-                 "below-file": "rename-order", "file-to-emptydir": "kind-dir", "dir-to-file": "kind-dir",
-                 "file-to-dir2": "kind-dir", "kind-dir": "kind-dir"}
-_TREE = [("C44-plain-directory-rename", "dir-rename"), ("C44-rename-order", "rename-order"),
-         ("C44-kind-change-directory", "kind-dir"), ("C44-multiple-roots", "roots")]
+_TREE = [("C44-rename-order", "rename-order"), ("C44-kind-change-directory", "kind-dir"),
+         ("C44-rich-directory-rename-modified-child", "rich-dirmod"),
+         ("C44-plain-directory-rename-swallows-delete", "swallow")]
 
 # failure class -> [(finding id, feature that must be present in the input)]
 _EXPLAIN = {
-    "import-error:ValueError": [("C44-rich-properties", "rich-props")],
     "import-error:InconsistentDelta": _TREE,
+    "import-error:NoSuchFile": [("C44-rich-rename-after-directory-rename", "stale-rename")],
+    # a rename cycle makes _rename_pending_change trip over an entry it has already turned into a delete
+    "import-error:AttributeError": [("C44-rename-order", "rename-order")],
     "tree": _TREE,
-    "shape": [("C44-multiple-roots", "roots")],
     "emptydir": [("C44-empty-directory", "emptydir")] + _TREE,
     "timestamp": [("C44-subsecond-timestamp", "subsecond")],
     "timezone": [("C44-timezone-minutes", "tzminutes")],
     "committer": [("C44-ident-normalised", "ident-committer")],
     "authors": [("C44-plain-multiple-authors", "multi-authors"), ("C44-ident-normalised", "ident-author"),
                 ("C44-ident-normalised", "ident-committer")],
-    "tags": [("C44-invalid-tag-names", "bad-tag"), ("C44-rewritten-tag-becomes-branch", "tag-escapes"),
-             ("C44-multiple-roots", "roots")],
-    "tip": [("C44-rewritten-tag-becomes-branch", "tag-escapes"), ("C44-multiple-roots", "roots")],
+    "tags": [("C44-invalid-tag-names", "bad-tag")],
 }
 
 
